@@ -278,8 +278,6 @@ def evalPairs : Nat → Ctx → Env → List (Bytes × Expr) → Res (List (Byte
 
 end
 
-def Res.mapOk {α β} (r : Res α) (f : α → Res β) : Res β := r.bind f
-
 /-- bind the component arguments in the component's scope (`newEnv.Set(key, val)`) -/
 def bindArgs (env : Env) (kvs : List (Bytes × Val)) (line : Nat) : Res Env :=
   match kvs with
@@ -289,317 +287,199 @@ def bindArgs (env : Env) (kvs : List (Bytes × Val)) (line : Nat) : Res Env :=
     | .ok env' => bindArgs env' r line
     | .error (code, args) => .err code line args
 
-mutual
+/-- `env.Set` as a result -/
+def setVar (env : Env) (k : Bytes) (v : Val) (line : Nat) : Res Env :=
+  match env.set k v with
+  | .ok env' => .ok env'
+  | .error (code, args) => .err code line args
+
+/-- the value of a `@for` condition (`none` = absent = true) -/
+def condTruth (r : Res Val) : Res Bool := r.bind fun v => .ok (isTruthy v)
+
+/-- the evaluator's functions at one fuel level (what a function body may call) -/
+structure Callees where
+  expr : Ctx → Env → Expr → Res Val
+  exprs : Ctx → Env → List Expr → Res (List Val)
+  pairs : Ctx → Env → List (Bytes × Expr) → Res (List (Bytes × Val))
+  stmt : Ctx → Env → Stmt → Res (Out × Env)
+  elseIfs : Ctx → Env → List (Expr × List Stmt) → Option (List Stmt) → Res (Out × Env)
+  block : Ctx → Env → List Stmt → Res (Out × Env)
+  prog : Ctx → Env → List Stmt → Bytes → Res (Bytes × Env)
+  forL : Ctx → Env → Token → Option Stmt → Option Expr → Option Stmt → List Stmt → Bytes → Res Bytes
+  eachL : Ctx → Env → Token → Bytes → List Stmt → List Val → Nat → Nat → Bytes → Res Bytes
 
 /-- `Eval` on statement nodes: the object's text and control flags, and the environment -/
+def stmtBody (k : Callees) (c : Ctx) (env : Env) (s : Stmt) : Res (Out × Env) :=
+  match s with
+  | .bad => .panic "Eval(nil statement)"
+  | .html t => .ok ({ text := t.lit }, env)
+  | .expr _ e => (k.expr c env e).bind fun v => .ok ({ text := v.toStr }, env)
+  | .assign t name e =>
+    (k.expr c env e).bind fun v => (setVar env name v t.errorLine).bind fun env' => .ok ({}, env')
+  | .ifS _ cnd cons alts alt =>
+    (k.expr c env cnd).bind fun v =>
+      if isTruthy v then (k.block c env.push cons).bind fun r => .ok (r.1, env)
+      else k.elseIfs c env alts alt
+  | .forS t init cnd post body alt =>
+    (match init with
+      | none => Res.ok env.push
+      | some i => (k.stmt c env.push i).bind fun r => .ok r.2).bind fun env1 =>
+    (match cnd with
+      | none => Res.ok true
+      | some ce => condTruth (k.expr c env1 ce)).bind fun entry =>
+    if entry then (k.forL c env1 t init cnd post body []).bind fun txt => .ok ({ text := txt }, env)
+    else
+      match alt with
+      | some ab => (k.block c env1 ab).bind fun r => .ok (r.1, env)
+      | none => .ok ({}, env)
+  | .eachS t var arrE body alt =>
+    (k.expr c env.push arrE).bind fun av =>
+      match av with
+      | .arr xs =>
+        if xs.isEmpty then
+          match alt with
+          | some ab => (k.block c env.push ab).bind fun r => .ok (r.1, env)
+          | none => .ok ({}, env)
+        else (k.eachL c env.push t var body xs 0 xs.length []).bind fun txt => .ok ({ text := txt }, env)
+      | v => .err "ErrEachNotArray" t.errorLine [v.typeName]
+  | .use t _ =>
+    match c.layout with
+    | none => .err "ErrUseStmtMustHaveProgram" t.errorLine []
+    | some prog =>
+      if c.layoutHasUse then .err "ErrUseStmtNotAllowed" t.errorLine []
+      else (k.prog c env prog []).bind fun r => .ok ({ text := r.1 }, r.2)
+  | .reserve _ _ rid =>
+    match lookupNat c.inserts rid with
+    | none => .ok ({}, env)
+    | some ins =>
+      match ins.block with
+      | some blk => (k.block c env blk).bind fun r => .ok ({ text := r.1.text }, r.2)
+      | none =>
+        match ins.arg with
+        | none => .err "ErrInsertMustHaveContent" ins.tok.errorLine []
+        | some ae => (k.expr c env ae).bind fun v => .ok ({ text := v.toStr }, env)
+  | .insert _ _ _ _ => .ok ({}, env)
+  | .breakIf _ cnd => (k.expr c env cnd).bind fun v => .ok ({ brk := isTruthy v }, env)
+  | .continueIf _ cnd => (k.expr c env cnd).bind fun v => .ok ({ cont := isTruthy v }, env)
+  | .component t name arg cid =>
+    match lookupNat c.comps cid with
+    | none => .err "ErrComponentMustHaveBlock" t.errorLine [literalValue name]
+    | some prog =>
+      (match arg with
+        | none => Res.ok []
+        | some pairs => k.pairs c env (sortByKey pairs)).bind fun kvs =>
+      (bindArgs env.push kvs t.errorLine).bind fun env1 =>
+      (k.prog c env1 prog []).bind fun r => .ok ({ text := r.1 }, env)
+  | .slot _ _ body =>
+    match body with
+    | none => .ok ({}, env)
+    | some blk => (k.block c env blk).bind fun r => .ok ({ text := r.1.text }, r.2)
+  | .dump _ args =>
+    match k.exprs c env args with
+    | .ok vs => .ok ({ text := vs.flatMap fun v => dumpHtmlPre ++ v.dump 0 ++ dumpHtmlPost }, env)
+    | .err _ l _ => .err "ModelUnsupported" l [b "dump of an error"]
+    | .panic w => .panic w
+    | .oof => .oof
+  | .brk _ => .ok ({ brk := true }, env)
+  | .cont _ => .ok ({ cont := true }, env)
+
+/-- the `@elseif` chain and the `@else` block of `evalIfStmt` -/
+def elseIfsBody (k : Callees) (c : Ctx) (env : Env) (alts : List (Expr × List Stmt)) (alt : Option (List Stmt)) : Res (Out × Env) :=
+  match alts with
+  | [] =>
+    match alt with
+    | some ab => (k.block c env.push ab).bind fun r => .ok (r.1, env)
+    | none => .ok ({}, env)
+  | (ce, body) :: rest =>
+    (k.expr c env ce).bind fun v =>
+      if isTruthy v then (k.block c env.push body).bind fun r => .ok (r.1, env)
+      else k.elseIfs c env rest alt
+
+/-- `evalBlockStmt`: stops after an element that carries a break or continue -/
+def blockBody (k : Callees) (c : Ctx) (env : Env) (ss : List Stmt) : Res (Out × Env) :=
+  match ss with
+  | [] => .ok ({}, env)
+  | s :: r =>
+    (k.stmt c env s).bind fun r1 =>
+      if r1.1.brk || r1.1.cont then .ok r1
+      else (k.block c r1.2 r).bind fun r2 =>
+        .ok ({ text := r1.1.text ++ r2.1.text, brk := r2.1.brk, cont := r2.1.cont }, r2.2)
+
+/-- `evalProgram`: concatenates the text of every statement -/
+def progBody (k : Callees) (c : Ctx) (env : Env) (ss : List Stmt) (acc : Bytes) : Res (Bytes × Env) :=
+  match ss with
+  | [] => .ok (acc, env)
+  | s :: r => (k.stmt c env s).bind fun r1 => k.prog c r1.2 r (acc ++ r1.1.text)
+
+/-- the `for { … }` of `evalForStmt` -/
+def forBody (k : Callees) (c : Ctx) (env : Env) (t : Token) (init : Option Stmt) (cnd : Option Expr) (post : Option Stmt)
+    (body : List Stmt) (acc : Bytes) : Res Bytes :=
+  (match cnd with
+    | none => Res.ok true
+    | some ce => condTruth (k.expr c env ce)).bind fun go =>
+  if !go then .ok acc
+  else
+    (k.block c env body).bind fun r =>
+      if r.1.brk then .ok (acc ++ r.1.text)
+      else
+        match post with
+        | none => k.forL c r.2 t init cnd post body (acc ++ r.1.text)
+        | some (.expr _ pe) =>
+          (k.expr c r.2 pe).bind fun pv =>
+            match init with
+            | some (.assign _ name _) =>
+              (setVar r.2 name pv t.errorLine).bind fun env2 => k.forL c env2 t init cnd post body (acc ++ r.1.text)
+            | _ => k.forL c r.2 t init cnd post body (acc ++ r.1.text)
+        | some ps =>
+          (k.stmt c r.2 ps).bind fun r2 => k.forL c r2.2 t init cnd post body (acc ++ r.1.text)
+
+/-- the `for i, elem := range elems` of `evalEachStmt` -/
+def eachBody (k : Callees) (c : Ctx) (env : Env) (t : Token) (var : Bytes) (body : List Stmt) (xs : List Val) (i n : Nat)
+    (acc : Bytes) : Res Bytes :=
+  match xs with
+  | [] => .ok acc
+  | x :: rest =>
+    (setVar env var x t.errorLine).bind fun env1 =>
+    (k.block c (env1.setLoop (loopObj i n)) body).bind fun r =>
+      if r.1.brk then .ok (acc ++ r.1.text)
+      else k.eachL c r.2 t var body rest (i + 1) n (acc ++ r.1.text)
+
+mutual
 def evalStmt : Nat → Ctx → Env → Stmt → Res (Out × Env)
   | 0, _, _, _ => .oof
   | fuel + 1, c, env, s =>
-    match s with
-    | .bad => .panic "Eval(nil statement)"
-    | .html t => .ok ({ text := t.lit }, env)
-    | .expr _ e =>
-      match evalExpr fuel c env e with
-      | .ok v => .ok ({ text := v.toStr }, env)
-      | .err a l as => .err a l as
-      | .panic w => .panic w
-      | .oof => .oof
-    | .assign t name e =>
-      match evalExpr fuel c env e with
-      | .ok v =>
-        match env.set name v with
-        | .ok env' => .ok ({}, env')
-        | .error (code, args) => .err code t.errorLine args
-      | .err a l as => .err a l as
-      | .panic w => .panic w
-      | .oof => .oof
-    | .ifS _ cnd cons alts alt =>
-      match evalExpr fuel c env cnd with
-      | .ok v =>
-        if isTruthy v then
-          match evalBlock fuel c env.push cons with
-          | .ok (o, _) => .ok (o, env)
-          | .err a l as => .err a l as
-          | .panic w => .panic w
-          | .oof => .oof
-        else evalElseIfs fuel c env alts alt
-      | .err a l as => .err a l as
-      | .panic w => .panic w
-      | .oof => .oof
-    | .forS t init cnd post body alt =>
-      let env0 := env.push
-      let r0 : Res Env :=
-        match init with
-        | none => .ok env0
-        | some i =>
-          match evalStmt fuel c env0 i with
-          | .ok (_, e1) => .ok e1
-          | .err a l as => .err a l as
-          | .panic w => .panic w
-          | .oof => .oof
-      match r0 with
-      | .ok env1 =>
-        -- the `@else` block is rendered when the condition is false at entry
-        let entry : Res Bool :=
-          match cnd with
-          | none => .ok true
-          | some ce =>
-            match evalExpr fuel c env1 ce with
-            | .ok v => .ok (isTruthy v)
-            | .err a l as => .err a l as
-            | .panic w => .panic w
-            | .oof => .oof
-        match entry with
-        | .ok true =>
-          match forLoop fuel c env1 t init cnd post body [] with
-          | .ok txt => .ok ({ text := txt }, env)
-          | .err a l as => .err a l as
-          | .panic w => .panic w
-          | .oof => .oof
-        | .ok false =>
-          match alt with
-          | some ab =>
-            match evalBlock fuel c env1 ab with
-            | .ok (o, _) => .ok (o, env)
-            | .err a l as => .err a l as
-            | .panic w => .panic w
-            | .oof => .oof
-          | none => .ok ({}, env)
-        | .err a l as => .err a l as
-        | .panic w => .panic w
-        | .oof => .oof
-      | .err a l as => .err a l as
-      | .panic w => .panic w
-      | .oof => .oof
-    | .eachS t var arrE body alt =>
-      let env0 := env.push
-      match evalExpr fuel c env0 arrE with
-      | .ok (.arr xs) =>
-        if xs.isEmpty then
-          match alt with
-          | some ab =>
-            match evalBlock fuel c env0 ab with
-            | .ok (o, _) => .ok (o, env)
-            | .err a l as => .err a l as
-            | .panic w => .panic w
-            | .oof => .oof
-          | none => .ok ({}, env)
-        else
-          match eachLoop fuel c env0 t var body xs 0 xs.length [] with
-          | .ok txt => .ok ({ text := txt }, env)
-          | .err a l as => .err a l as
-          | .panic w => .panic w
-          | .oof => .oof
-      | .ok v => .err "ErrEachNotArray" t.errorLine [v.typeName]
-      | .err a l as => .err a l as
-      | .panic w => .panic w
-      | .oof => .oof
-    | .use t _ =>
-      match c.layout with
-      | none => .err "ErrUseStmtMustHaveProgram" t.errorLine []
-      | some prog =>
-        if c.layoutHasUse then .err "ErrUseStmtNotAllowed" t.errorLine []
-        else
-          match evalProg fuel c env prog [] with
-          | .ok (txt, env') => .ok ({ text := txt }, env')
-          | .err a l as => .err a l as
-          | .panic w => .panic w
-          | .oof => .oof
-    | .reserve _ _ rid =>
-      match lookupNat c.inserts rid with
-      | none => .ok ({}, env)
-      | some ins =>
-        match ins.block with
-        | some blk =>
-          match evalBlock fuel c env blk with
-          | .ok (o, env') => .ok ({ text := o.text }, env')
-          | .err a l as => .err a l as
-          | .panic w => .panic w
-          | .oof => .oof
-        | none =>
-          match ins.arg with
-          | none => .err "ErrInsertMustHaveContent" ins.tok.errorLine []
-          | some ae =>
-            match evalExpr fuel c env ae with
-            | .ok v => .ok ({ text := v.toStr }, env)
-            | .err a l as => .err a l as
-            | .panic w => .panic w
-            | .oof => .oof
-    | .insert _ _ _ _ => .ok ({}, env)
-    | .breakIf _ cnd =>
-      match evalExpr fuel c env cnd with
-      | .ok v => .ok ({ brk := isTruthy v }, env)
-      | .err a l as => .err a l as
-      | .panic w => .panic w
-      | .oof => .oof
-    | .continueIf _ cnd =>
-      match evalExpr fuel c env cnd with
-      | .ok v => .ok ({ cont := isTruthy v }, env)
-      | .err a l as => .err a l as
-      | .panic w => .panic w
-      | .oof => .oof
-    | .component t name arg cid =>
-      match lookupNat c.comps cid with
-      | none => .err "ErrComponentMustHaveBlock" t.errorLine [literalValue name]
-      | some prog =>
-        let argsR : Res (List (Bytes × Val)) :=
-          match arg with
-          | none => .ok []
-          | some pairs => evalPairs fuel c env (sortByKey pairs)
-        match argsR with
-        | .ok kvs =>
-          match bindArgs env.push kvs t.errorLine with
-          | .ok env1 =>
-            match evalProg fuel c env1 prog [] with
-            | .ok (txt, _) => .ok ({ text := txt }, env)
-            | .err a l as => .err a l as
-            | .panic w => .panic w
-            | .oof => .oof
-          | .err a l as => .err a l as
-          | .panic w => .panic w
-          | .oof => .oof
-        | .err a l as => .err a l as
-        | .panic w => .panic w
-        | .oof => .oof
-    | .slot _ _ body =>
-      match body with
-      | none => .ok ({}, env)
-      | some blk =>
-        match evalBlock fuel c env blk with
-        | .ok (o, env') => .ok ({ text := o.text }, env')
-        | .err a l as => .err a l as
-        | .panic w => .panic w
-        | .oof => .oof
-    | .dump _ args =>
-      match evalExprs fuel c env args with
-      | .ok vs => .ok ({ text := vs.flatMap fun v => dumpHtmlPre ++ v.dump 0 ++ dumpHtmlPost }, env)
-      | .err _ l _ => .err "ModelUnsupported" l [b "dump of an error"]
-      | .panic w => .panic w
-      | .oof => .oof
-    | .brk _ => .ok ({ brk := true }, env)
-    | .cont _ => .ok ({ cont := true }, env)
-
-/-- the `@elseif` chain and the `@else` block of `evalIfStmt` -/
+    stmtBody ⟨evalExpr fuel, evalExprs fuel, evalPairs fuel, evalStmt fuel, evalElseIfs fuel, evalBlock fuel,
+      evalProg fuel, forLoop fuel, eachLoop fuel⟩ c env s
 def evalElseIfs : Nat → Ctx → Env → List (Expr × List Stmt) → Option (List Stmt) → Res (Out × Env)
   | 0, _, _, _, _ => .oof
   | fuel + 1, c, env, alts, alt =>
-    match alts with
-    | [] =>
-      match alt with
-      | some ab =>
-        match evalBlock fuel c env.push ab with
-        | .ok (o, _) => .ok (o, env)
-        | other => other
-      | none => .ok ({}, env)
-    | (ce, body) :: rest =>
-      match evalExpr fuel c env ce with
-      | .ok v =>
-        if isTruthy v then
-          match evalBlock fuel c env.push body with
-          | .ok (o, _) => .ok (o, env)
-          | other => other
-        else evalElseIfs fuel c env rest alt
-      | .err a l as => .err a l as
-      | .panic w => .panic w
-      | .oof => .oof
-
-/-- `evalBlockStmt`: stops after an element that carries a break or continue -/
+    elseIfsBody ⟨evalExpr fuel, evalExprs fuel, evalPairs fuel, evalStmt fuel, evalElseIfs fuel, evalBlock fuel,
+      evalProg fuel, forLoop fuel, eachLoop fuel⟩ c env alts alt
 def evalBlock : Nat → Ctx → Env → List Stmt → Res (Out × Env)
   | 0, _, _, _ => .oof
   | fuel + 1, c, env, ss =>
-    match ss with
-    | [] => .ok ({}, env)
-    | s :: r =>
-      match evalStmt fuel c env s with
-      | .ok (o, env1) =>
-        if o.brk || o.cont then .ok (o, env1)
-        else
-          match evalBlock fuel c env1 r with
-          | .ok (o2, env2) => .ok ({ text := o.text ++ o2.text, brk := o2.brk, cont := o2.cont }, env2)
-          | other => other
-      | other => other
-
-/-- `evalProgram`: concatenates the text of every statement -/
+    blockBody ⟨evalExpr fuel, evalExprs fuel, evalPairs fuel, evalStmt fuel, evalElseIfs fuel, evalBlock fuel,
+      evalProg fuel, forLoop fuel, eachLoop fuel⟩ c env ss
 def evalProg : Nat → Ctx → Env → List Stmt → Bytes → Res (Bytes × Env)
   | 0, _, _, _, _ => .oof
   | fuel + 1, c, env, ss, acc =>
-    match ss with
-    | [] => .ok (acc, env)
-    | s :: r =>
-      match evalStmt fuel c env s with
-      | .ok (o, env1) => evalProg fuel c env1 r (acc ++ o.text)
-      | .err a l as => .err a l as
-      | .panic w => .panic w
-      | .oof => .oof
-
-/-- the `for { … }` of `evalForStmt` -/
+    progBody ⟨evalExpr fuel, evalExprs fuel, evalPairs fuel, evalStmt fuel, evalElseIfs fuel, evalBlock fuel,
+      evalProg fuel, forLoop fuel, eachLoop fuel⟩ c env ss acc
 def forLoop : Nat → Ctx → Env → Token → Option Stmt → Option Expr → Option Stmt → List Stmt → Bytes → Res Bytes
   | 0, _, _, _, _, _, _, _, _ => .oof
   | fuel + 1, c, env, t, init, cnd, post, body, acc =>
-    let go : Res Bool :=
-      match cnd with
-      | none => .ok true
-      | some ce =>
-        match evalExpr fuel c env ce with
-        | .ok v => .ok (isTruthy v)
-        | .err a l as => .err a l as
-        | .panic w => .panic w
-        | .oof => .oof
-    match go with
-    | .ok false => .ok acc
-    | .ok true =>
-      match evalBlock fuel c env body with
-      | .ok (o, env1) =>
-        let acc' := acc ++ o.text
-        if o.brk then .ok acc'
-        else
-          match post with
-          | none => forLoop fuel c env1 t init cnd post body acc'
-          | some (.expr _ pe) =>
-            match evalExpr fuel c env1 pe with
-            | .ok pv =>
-              match init with
-              | some (.assign _ name _) =>
-                match env1.set name pv with
-                | .ok env2 => forLoop fuel c env2 t init cnd post body acc'
-                | .error (code, args) => .err code t.errorLine args
-              | _ => forLoop fuel c env1 t init cnd post body acc'
-            | .err a l as => .err a l as
-            | .panic w => .panic w
-            | .oof => .oof
-          | some ps =>
-            match evalStmt fuel c env1 ps with
-            | .ok (_, env2) => forLoop fuel c env2 t init cnd post body acc'
-            | .err a l as => .err a l as
-            | .panic w => .panic w
-            | .oof => .oof
-      | .err a l as => .err a l as
-      | .panic w => .panic w
-      | .oof => .oof
-    | .err a l as => .err a l as
-    | .panic w => .panic w
-    | .oof => .oof
-
-/-- the `for i, elem := range elems` of `evalEachStmt` -/
+    forBody ⟨evalExpr fuel, evalExprs fuel, evalPairs fuel, evalStmt fuel, evalElseIfs fuel, evalBlock fuel,
+      evalProg fuel, forLoop fuel, eachLoop fuel⟩ c env t init cnd post body acc
 def eachLoop : Nat → Ctx → Env → Token → Bytes → List Stmt → List Val → Nat → Nat → Bytes → Res Bytes
   | 0, _, _, _, _, _, _, _, _, _ => .oof
   | fuel + 1, c, env, t, var, body, xs, i, n, acc =>
-    match xs with
-    | [] => .ok acc
-    | x :: rest =>
-      match env.set var x with
-      | .error (code, args) => .err code t.errorLine args
-      | .ok env1 =>
-        let env2 := env1.setLoop (loopObj i n)
-        match evalBlock fuel c env2 body with
-        | .ok (o, env3) =>
-          if o.brk then .ok (acc ++ o.text)
-          else eachLoop fuel c env3 t var body rest (i + 1) n (acc ++ o.text)
-        | .err a l as => .err a l as
-        | .panic w => .panic w
-        | .oof => .oof
-
+    eachBody ⟨evalExpr fuel, evalExprs fuel, evalPairs fuel, evalStmt fuel, evalElseIfs fuel, evalBlock fuel,
+      evalProg fuel, forLoop fuel, eachLoop fuel⟩ c env t var body xs i n acc
 end
+
+/-- the evaluator's functions at fuel `f` -/
+def calleesAt (f : Nat) : Callees :=
+  ⟨evalExpr f, evalExprs f, evalPairs f, evalStmt f, evalElseIfs f, evalBlock f, evalProg f, forLoop f, eachLoop f⟩
 
 /-- fuel used by the driver for evaluation -/
 def evalFuel : Nat := 100000
